@@ -47,6 +47,9 @@ func scenarios() []scenario {
 		if sc.Plain {
 			t = "plain-"
 		}
+		if sc.PlainPeers > 0 {
+			t = "mixed-"
+		}
 		sc.Name = fmt.Sprintf("%s%s-%s-%d", t, sc.Kind, sc.Transport, len(out))
 		out = append(out, sc)
 	}
@@ -95,6 +98,22 @@ func scenarios() []scenario {
 			add(scenario{Kind: "backchannel", Transport: tr, Tamper: true, Formats: []int{1}, Packets: tp})
 			add(scenario{Kind: "play", Transport: tr, Tamper: true, Formats: []int{3}, Packets: tp})
 		}
+	}
+	// (e) mixed profiles on one RTSPS stream: secure readers (udp / tcp / multicast) next to raw
+	// readers that negotiated RTP/AVP/TCP inside TLS; RTP through ServerStream.WritePacketRTP, RTCP
+	// APP packets through ServerStream.WritePacketRTCP of every media. Appended last: the seeds and
+	// names of the scenarios above do not depend on them.
+	mp := run.Pick(6000, 70000)
+	mj := func() []int { return []int{mp/2 + r.Intn(mp/4)} } // a secure late joiner after the wrap, next to the plain peers
+	add(scenario{Kind: "play", Transport: "udp", Extra: []string{"tcp"}, PlainPeers: 2, Formats: []int{2, 1}, Packets: mp, Joiners: mj()})
+	add(scenario{Kind: "play", Transport: "tcp", Extra: []string{"udp"}, PlainPeers: 1, Formats: []int{1, 1}, Packets: mp, Joiners: mj()})
+	if rig.MulticastIP() != "" {
+		add(scenario{Kind: "play", Transport: "mcast", Extra: []string{"udp", "tcp"}, PlainPeers: 1, Formats: []int{1, 1}, Packets: mp})
+	}
+	if !run.Quick() {
+		add(scenario{Kind: "play", Transport: "udp", PlainPeers: 3, Formats: pick(), Packets: mp, Joiners: mj()})
+		add(scenario{Kind: "play", Transport: "tcp", PlainPeers: 3, Formats: pick(), Packets: mp, Joiners: mj()})
+		add(scenario{Kind: "play", Transport: "udp", Extra: []string{"tcp", "tcp", "udp"}, PlainPeers: 4, Formats: []int{3}, Packets: mp})
 	}
 	return out
 }
@@ -168,5 +187,6 @@ func main() {
 	run.Assume("a reader's SETUP (roll-over counter snapshot in MIKEY) and the first packet it receives lie on the same side of a sequence-number wrap: writers hold back the ~96 packets before a wrap while a reader joins (RFC 3711 / MIKEY signal the ROC once; a receiver cannot synchronise otherwise)")
 	run.Assume("UDP: in-order subsequence; every receiver must still receive sentinel packets after the load (a receiver whose SRTP context lost synchronisation would not); tamper scenarios on UDP require the packets directly after an altered one to arrive (<= 10% missing) and at least half of the untampered packets overall; on TCP every untampered packet")
 	run.Assume("cleartext needles: 32-byte PRNG marker inside every RTP payload >= 57 bytes, the 8-byte 'VRF1'+run prefix of every payload, 32-byte marker of RTCP APP packets; a plain (non-TLS) control session proves the monitor finds them")
-	run.Finish(evals.Load(), "scenarios = {play, record, back channel} x {udp, tcp, multicast(play)} under RTSPS+SRTP with 1..3 formats per media, flows of consecutive sequence numbers starting a few hundred before 65535 and long enough to wrap 2 (quick) / 4 (thorough) times, late joiners after 1..n wraps, RTCP APP packets; tamper scenarios alter 1/6 of the inbound SRTP packets and 1/3 of the SRTCP APP packets at a PRNG position of each class (header seq / header other / payload / auth tag; SRTCP header / payload / index / tag), one bit or one byte; downgrade probes = raw SETUPs (SAVP on plain server with and without KeyMgmt, AVP UDP / multicast on TLS server, play and record) and a client redirected from rtsps to rtsp (301/302/303/305); distinct_nontrivial = distinct (kind, transport, formats, joiners) scenarios + distinct probes")
+	run.Assume("mixed scenarios: a reader that negotiated RTP/AVP/TCP inside the TLS connection of an RTSPS server is served in clear by design (outside the statement); the frames the server writes to such a peer are exempt from the cleartext monitor (and must carry the written packets in clear, in order), every other datagram / frame of the same stream is not")
+	run.Finish(evals.Load(), "scenarios = {play, record, back channel} x {udp, tcp, multicast(play)} under RTSPS+SRTP with 1..3 formats per media, flows of consecutive sequence numbers starting a few hundred before 65535 and long enough to wrap 2 (quick) / 4 (thorough) times, late joiners after 1..n wraps, RTCP APP packets; mixed-profile scenarios = one RTSPS stream played at the same time by secure library readers over {udp + tcp, tcp + udp, multicast + udp + tcp} and by 1..4 raw peers that SETUP every media with RTP/AVP/TCP;interleaved inside TLS (one from the start, the others joining under load), RTP and RTCP APP packets of every media, all monitors of the secure readers unchanged; tamper scenarios alter 1/6 of the inbound SRTP packets and 1/3 of the SRTCP APP packets at a PRNG position of each class (header seq / header other / payload / auth tag; SRTCP header / payload / index / tag), one bit or one byte; downgrade probes = raw SETUPs (SAVP on plain server with and without KeyMgmt, AVP UDP / multicast on TLS server, play and record) and a client redirected from rtsps to rtsp (301/302/303/305); distinct_nontrivial = distinct (kind, transport, formats, joiners) scenarios + distinct probes")
 }
